@@ -658,7 +658,7 @@ impl Gen
             rules : initial_rules,
             files : files,
             dirs : dirs,
-            rule_files : if self.rng.chance(1, 4) { 2 } else { 1 },
+            rule_files : (if self.rng.chance(1, 4) { 2 } else { 1 }) + (if self.with_dir && self.rng.chance(1, 2) { 10 } else { 0 }),
             ops : ops,
             knobs : self.knobs(),
         }
